@@ -24,6 +24,13 @@ var Properties = map[string]func(*Ctx){
 	"C05": C05,
 	"C02": C02,
 	"C08": C08,
+	"C10": C10,
+}
+
+func C10(c *Ctx) {
+	R9SQLSchema(c)
+	R9AckOrder(c)
+	R8IDWidth(c)
 }
 
 func C02(c *Ctx) {
